@@ -90,6 +90,8 @@ func (r *DenseFloat32Matrix) MaddS(a ConstMatrix, b ConstScalar) Matrix {
   if n1 != n || m1 != m {
     panic("matrix dimensions do not match!")
   }
+  // b might be an element of r, which is overwritten below
+  b = b.CloneConstScalar()
   for i := 0; i < n; i++ {
     for j := 0; j < m; j++ {
       r.At(i, j).Add(a.ConstAt(i, j), b)
@@ -103,6 +105,8 @@ func (r *DenseFloat32Matrix) MADDS(a *DenseFloat32Matrix, b Float32) Matrix {
   if n1 != n || m1 != m {
     panic("matrix dimensions do not match!")
   }
+  // b might be an element of r, which is overwritten below
+  b = b.Clone()
   for i := 0; i < n; i++ {
     for j := 0; j < m; j++ {
       r.AT(i, j).ADD(a.AT(i, j), b)
@@ -148,6 +152,8 @@ func (r *DenseFloat32Matrix) MsubS(a ConstMatrix, b ConstScalar) Matrix {
   if n1 != n || m1 != m {
     panic("matrix dimensions do not match!")
   }
+  // b might be an element of r, which is overwritten below
+  b = b.CloneConstScalar()
   for i := 0; i < n; i++ {
     for j := 0; j < m; j++ {
       r.At(i, j).Sub(a.ConstAt(i, j), b)
@@ -161,6 +167,8 @@ func (r *DenseFloat32Matrix) MSUBS(a *DenseFloat32Matrix, b Float32) Matrix {
   if n1 != n || m1 != m {
     panic("matrix dimensions do not match!")
   }
+  // b might be an element of r, which is overwritten below
+  b = b.Clone()
   for i := 0; i < n; i++ {
     for j := 0; j < m; j++ {
       r.AT(i, j).SUB(a.AT(i, j), b)
@@ -206,6 +214,8 @@ func (r *DenseFloat32Matrix) MmulS(a ConstMatrix, b ConstScalar) Matrix {
   if n1 != n || m1 != m {
     panic("matrix dimensions do not match!")
   }
+  // b might be an element of r, which is overwritten below
+  b = b.CloneConstScalar()
   for i := 0; i < n; i++ {
     for j := 0; j < m; j++ {
       r.At(i, j).Mul(a.ConstAt(i, j), b)
@@ -219,6 +229,8 @@ func (r *DenseFloat32Matrix) MMULS(a *DenseFloat32Matrix, b Float32) Matrix {
   if n1 != n || m1 != m {
     panic("matrix dimensions do not match!")
   }
+  // b might be an element of r, which is overwritten below
+  b = b.Clone()
   for i := 0; i < n; i++ {
     for j := 0; j < m; j++ {
       r.AT(i, j).MUL(a.AT(i, j), b)
@@ -264,6 +276,8 @@ func (r *DenseFloat32Matrix) MdivS(a ConstMatrix, b ConstScalar) Matrix {
   if n1 != n || m1 != m {
     panic("matrix dimensions do not match!")
   }
+  // b might be an element of r, which is overwritten below
+  b = b.CloneConstScalar()
   for i := 0; i < n; i++ {
     for j := 0; j < m; j++ {
       r.At(i, j).Div(a.ConstAt(i, j), b)
@@ -277,6 +291,8 @@ func (r *DenseFloat32Matrix) MDIVS(a *DenseFloat32Matrix, b Float32) Matrix {
   if n1 != n || m1 != m {
     panic("matrix dimensions do not match!")
   }
+  // b might be an element of r, which is overwritten below
+  b = b.Clone()
   for i := 0; i < n; i++ {
     for j := 0; j < m; j++ {
       r.AT(i, j).DIV(a.AT(i, j), b)
